@@ -129,7 +129,8 @@ def sim_case(arg):
     else:
         eq = pde.CahnHilliardPDE(interface_width=1.3, bc_c="auto_periodic_neumann", bc_mu="auto_periodic_neumann")
     rec = []
-    tr = pde.CallbackTracker(lambda s, t: rec.append((t, float(s.integral))), interrupts=dt)
+    vols = grid.cell_volumes
+    tr = pde.CallbackTracker(lambda s, t: rec.append((t, float(s.integral), float(np.sum(vols * np.abs(s.data))))), interrupts=dt)
     kw = {"adaptive": True, "tolerance": 1e-3} if adaptive else {}
     try:
         eq.solve(state, t_range=dt * steps, dt=dt, solver=solver, backend=backend, tracker=[tr], **kw)
@@ -244,7 +245,7 @@ def run(ctx):
         per = [False if (cls_pick in ("PolarSymGrid", "SphericalSymGrid") or (cls_pick == "CylindricalSymGrid" and i == 0)) else rng.random() < 0.5 for i in range(nax)]
         gd = {"cls": cls_pick, "shape": shape, "bounds": [[l, l + d * n] for l, d, n in zip(lo, dxs, shape)], "periodic": per}
         solver, adaptive = solvers[k % len(solvers)]
-        dt = 1e-3 if eqname == "cahn-hilliard" else 5e-3
+        dt = 2e-4 if eqname == "cahn-hilliard" else 5e-3
         sjobs.append((eqname, gd, solver, "numpy", adaptive, dt, rng.choice([3, 10, 25]), rng.randint(0, 10 ** 6)))
     res_sim = run_many("harness.c05", "sim_case", sjobs, env={"NUMBA_DISABLE_JIT": "1"}, procs=16)
     n_simj = ctx.budget(4, 24)
@@ -259,9 +260,16 @@ def run(ctx):
         if isinstance(rr, str) or "error" in rr:
             ctx.disagree("sim", key, "runs", rr if isinstance(rr, str) else rr["error"], "simulation failed")
             continue
-        dev = max((abs(i - rr["i0"]) for _, i in rr["rec"]), default=0.0)
-        if dev > 1e-9 * rr["scale"] or len(rr["rec"]) < 2:
-            ctx.monitor_fail("sim", key, {"initial": rr["i0"], "recorded": rr["rec"][:8], "max_deviation": dev},
+        # scale = largest sum(volume*|state|) seen so far (an unstable run may grow by many orders of magnitude)
+        dev, bad_dev, sc = 0.0, False, rr["scale"]
+        for rec_ in rr["rec"]:
+            sc = max(sc, rec_[2]) if np.isfinite(rec_[2]) else sc
+            d_ = abs(rec_[1] - rr["i0"])
+            if np.isfinite(rec_[1]) and d_ > 1e-9 * sc:
+                bad_dev = True
+            dev = max(dev, d_ / sc if np.isfinite(d_) else 0.0)
+        if bad_dev or len(rr["rec"]) < 2:
+            ctx.monitor_fail("sim", key, {"initial": rr["i0"], "recorded": rr["rec"][:8], "max_relative_deviation": dev},
                              "integral constant at every step", f"{eqname} with {solver}/{backend}: integral drifts",
                              key={"eq": eqname, "solver": solver, "backend": backend})
 
@@ -275,7 +283,10 @@ def replay(ctx, rep):
     if rep["leg"] == "sim":
         rr = sim_case((c["eq"], c["grid"], c["solver"], c["backend"], c["adaptive"], c["dt"], c["steps"], c["seed"]))
         print(rr)
-        dev = max((abs(i - rr["i0"]) for _, i in rr["rec"]), default=0.0)
-        return dev <= 1e-9 * rr["scale"]
+        sc, ok = rr["scale"], True
+        for rec_ in rr["rec"]:
+            sc = max(sc, rec_[2])
+            ok = ok and abs(rec_[1] - rr["i0"]) <= 1e-9 * sc
+        return ok
     print(c)
     return False
